@@ -104,7 +104,7 @@ def tlc(wd, module, cfg_text, args, env=None, heap="4g", timeout=3600, cfg_name=
     return p.returncode, p.stdout + p.stderr
 
 
-def mc_cfg(family, cfgs, bounds, invariants, emit=False, view=True, emit_all=False):
+def mc_cfg(family, cfgs, bounds, invariants, emit=False, view=True, emit_all=False, properties=()):
     lines = ["SPECIFICATION Spec", "CONSTANTS", f'  Family = "{family}"', f"  Cfgs <- {cfgs}"]
     for k in ("MaxCodes", "MaxAT", "MaxRT", "MaxNow", "MaxDev", "MaxPar", "Depth"):
         lines.append(f"  {k} = {bounds[k]}")
@@ -112,6 +112,8 @@ def mc_cfg(family, cfgs, bounds, invariants, emit=False, view=True, emit_all=Fal
     lines.append(f"  EmitAll = {'TRUE' if emit_all else 'FALSE'}")
     if invariants:
         lines.append("INVARIANTS " + " ".join(invariants))
+    if properties:
+        lines.append("PROPERTIES " + " ".join(properties))
     if view:
         lines.append("VIEW View")
     lines.append("CHECK_DEADLOCK FALSE")
@@ -127,9 +129,11 @@ def parse_mc(out):
     return res
 
 
-def model_check(family, cfgs, bounds, wd, workers=NCPU, timeout=3000, coverage=False):
+def model_check(family, cfgs, bounds, wd, workers=NCPU, timeout=3000, coverage=False, refine=True):
     """Exhaustive TLC run of the bounded design; the property invariants must hold."""
-    cfg = mc_cfg(family, cfgs, bounds, ["InvState", "InvStep", "TypeOK"])
+    # FCInv / FCRefines: every state projects into the inductive invariant of FamilyCore.tla and every step
+    # projects to a FamilyCore step or a stutter (the link to the unbounded Apalache result)
+    cfg = mc_cfg(family, cfgs, bounds, ["InvState", "InvStep", "TypeOK", "FCInv"], properties=["FCRefines"] if refine else [])
     args = ["-workers", str(workers)]
     if coverage:
         args += ["-coverage", "1"]
@@ -138,6 +142,7 @@ def model_check(family, cfgs, bounds, wd, workers=NCPU, timeout=3000, coverage=F
     res = parse_mc(out)
     res["wall_s"] = round(time.time() - t0, 1)
     res["bounds"] = dict(bounds, Cfgs=cfgs, Family=family)
+    res["checked"] = ["InvState", "InvStep", "TypeOK", "FCInv"] + (["FCRefines (action property)"] if refine else [])
     if not res["ok"]:
         tail = "\n".join(l for l in out.splitlines() if not l.startswith(("Linting", "Semantic", "Parsing")))[-6000:]
         raise Indeterminate(f"design-level model check of {family} did not pass (specification bug, not a verdict about the code):\n{tail}")
@@ -178,11 +183,14 @@ def gen_simulate(family, cfgs, bounds, wd, num, seed, workers=4, timeout=1200):
     return hs
 
 
-def gen_exhaustive(family, cfgs, bounds, wd, timeout=1800):
+def gen_exhaustive(family, cfgs, bounds, wd, timeout=1800, tail_k=None, seed=1):
     """State cover: BFS over the bounded model with the VIEW that hides the history; TLC prints the
     history stored with every state it finds new, i.e. one shortest witness per distinct abstract
-    state of the bounded design. Histories that are prefixes of other witnesses are dropped (the
-    longer one passes through the same states)."""
+    state of the bounded design, together with the operations of the alphabet that leave that state
+    unchanged (refused attempts and queries: no witness can end in one, their successor is not new).
+    Witnesses that are prefixes of other witnesses are dropped (the longer one passes through the
+    same states) unless they have such a tail; the tail (all of it, or a seeded sample of tail_k
+    operations) is appended to the witness."""
     cfg = mc_cfg(family, cfgs, bounds, ["EmitHist"], emit=True, view=True, emit_all=True)
     rc, out = tlc(wd, "MCGrants", cfg, ["-workers", str(NCPU)], heap="12g", timeout=timeout, cfg_name=f"genx_{family}.cfg")
     hs = parse_hist(out)
@@ -195,9 +203,21 @@ def gen_exhaustive(family, cfgs, bounds, wd, timeout=1800):
     for (c, ops) in keyed:
         for n in range(1, len(ops)):
             prefixes.add((c, ops[:n]))
-    kept = [h for k, h in keyed.items() if k not in prefixes]
+    rnd = random.Random(seed)
+    kept, ntail = [], 0
+    for k in sorted(keyed):
+        h = keyed[k]
+        tail = sorted(h.pop("tail", []) or [], key=lambda o: json.dumps(o, sort_keys=True))
+        if tail_k is not None and len(tail) > tail_k:
+            tail = rnd.sample(tail, tail_k)
+        if k in prefixes and not tail:
+            continue
+        h["ops"] = h["ops"] + tail
+        ntail += len(tail)
+        kept.append(h)
     st = parse_mc(out)
     st["witnesses"] = len(hs)
+    st["inert_ops_appended"] = ntail
     return kept, st
 
 
@@ -252,7 +272,7 @@ OWNERS = {
     "dev_unknown": {"C16"}, "dev_used": {"C16"}, "dev_pending": {"C16"}, "dev_denied": {"C16"},
     "dev_expired": {"C16", "C07"}, "dev_wrong_client": {"C16"}, "usercode_expired": {"C16", "C07"},
     "revoke_foreign_client": {"C08"}, "revoke_unknown": {"C08"}, "revoke_already_inactive": {"C08"},
-    "introspect_caller_unauthenticated": {"C09"}, "introspect_inactive": {"C09"},
+    "introspect_caller_unauthenticated": {"C09"}, "introspect_inactive": {"C09"}, "rt_introspection_disabled": {"C09"},
     "oidc_redirect_required": {"C13"}, "response_type_unhandled": {"C13"}, "response_type_missing": {"C13"},
     # why a token is dead in the specification
     "rotated": {"C04"}, "reuse": {"C04"}, "replay": {"C01", "C16"}, "revoked": {"C08"}, "expired": {"C07"},
@@ -337,9 +357,9 @@ def classify(m, prop):
             viol = True
         texts.append(f"{op}: ID-token presence differs (spec {m['exp_issued']['idt']}, impl {m['obs_issued']['idt']})")
     if "note" in fields:
-        if prop == "C17":
+        if prop == ("C09" if op == "introspect" else "C17"):
             viol = True
-        texts.append(f"{op}: resulting request differs: spec '{m['exp_note']}' impl '{m['obs_note']}'")
+        texts.append(f"{op}: " + ("reported token kind" if op == "introspect" else "resulting request") + f" differs: spec '{m['exp_note']}' impl '{m['obs_note']}'")
     if prop == "C08" and op == "revoke" and m["exp_reason"] in ("revoke_already_inactive", "revoke_unknown", "revoke_foreign_client",
                                                                 "client_unauthenticated", "client_bad_secret") \
             and (fields & {"probe_active", "proj", "probe_payload"}):
